@@ -235,7 +235,7 @@ Proof.
       rewrite E.
       assert (EL : B ^ Z.of_nat L = B ^ Z.of_nat k * B ^ Z.of_nat (L - k)).
       { rewrite <- Z.pow_add_r by lia. f_equal. lia. }
-      rewrite EL. rewrite Hl1 in Se. nia. }
+      rewrite EL. rewrite Hl1 in Se. clear - Se. nia. }
     rewrite Hlr in Hbr. fold L in HnZ. rewrite HnZ in *.
     destruct (Bn_multiple bits Hpos) as (kk & Hkk & HBk).
     assert (H2b : 0 < 2 ^ b) by (apply pow2_pos; unfold b; lia).
@@ -249,9 +249,11 @@ Proof.
         cbn [negb orb];
         [ rewrite E1, E2; rewrite Z.mul_0_r, Z.add_0_r, Z.mul_0_r, Z.add_0_r; reflexivity | | | ].
       all: symmetry; apply Z.leb_le;
-        assert (HX : 1 <= c' + 2 ^ b * eval a2) by nia;
-        assert (HY : B ^ nlimbs bits <= B ^ nlimbs bits * (c' + 2 ^ b * eval a2)) by nia;
-        assert (HZ : 2 ^ bits <= B ^ nlimbs bits) by nia; lia.
+        assert (HX : 1 <= c' + 2 ^ b * eval a2) by (clear - Sc Hb2 H2b E1 E2; nia);
+        assert (HP : 0 < 2 ^ bits) by (apply pow2_pos; lia);
+        assert (HY : B ^ nlimbs bits <= B ^ nlimbs bits * (c' + 2 ^ b * eval a2))
+          by (rewrite HBk; clear - HX Hkk HP; nia);
+        assert (HZ : 2 ^ bits <= B ^ nlimbs bits) by (rewrite HBk; clear - Hkk HP; nia); lia.
 Qed.
 
 (* ---------- most_significant_bits ---------- *)
